@@ -98,7 +98,7 @@ pub fn job_c18(out_dir: &str, tier: &str, seed: u64) {
     let mut sh = Shards::new(out_dir, "c18", 1_000_000);
     let mut sets = gen::observer_sets();
     sets.extend(crate::props::rel::invariant_mutating_sets());
-    let njobs = if quick { 240 } else { 6000 };
+    let njobs = if quick { 900 } else { 6000 };
     let all = |_: &str| true;
     // job list
     let mut jobs: Vec<(Value, Vec<u8>, Vec<usize>)> = Vec::new();
